@@ -2257,6 +2257,27 @@ def gen_C10(tier, rng):
             s["adjudicate"] = [i for i, _ in final]
             cases.append(s)
     cases += flag_dance_cases(rng, 80 if tier == "quick" else 1000)
+    # contributions of ONE pass that cancel exactly (a*K and a*(-K), K far above the stored gradient): the pass alone
+    # produces exactly zero for the leaf, so the stored gradient of earlier passes must survive it untouched
+    for n2 in range(40 if tier == "quick" else 400):
+        d = rng.choice([[1], [2], [3]])
+        nel = prod(d)
+        K = rng.choice([1e17, 1e18, 2.0 ** 60, 3e19])
+        g0 = [float(rng.randint(1, 5)) for _ in range(nel)]
+        ins = [("leaf", True, d, [float(rng.randint(1, 4)) for _ in range(nel)]), ("leaf", False, d, g0),
+               ("op", ("mul",), [0, 1]), ("backward", 2, None), ("grad", 0)]
+        expect = [(4, d, list(g0))]
+        ins += [("leaf", False, d, [K] * nel), ("leaf", False, d, [-K] * nel)]
+        order = [5, 6] if n2 % 2 else [6, 5]
+        ins += [("op", ("mul",), [0, order[0]]), ("op", ("mul",), [0, order[1]]), ("op", ("add",), [7, 8])]
+        for _ in range(rng.randint(1, 2)):
+            ins.append(("backward", 9, None))
+            ins.append(("grad", 0))
+            expect.append((len(ins) - 1, d, list(g0)))
+        c = case("cancel", ins, "cancelling_contributions_in_one_pass")
+        c["expect_at"] = expect
+        c["adjudicate"] = [e[0] for e in expect]
+        cases.append(c)
     # ONE node reached in the same pass through an untracked entry and through tracked ones, in either order: a frozen
     # clone of a leaf (or of an interior result) multiplied with the leaf itself; a frozen branch and a live branch
     # joined by an addition.  The untracked entry receives nothing and triggers nothing.
